@@ -8,12 +8,15 @@ ID = "C02"
 LEAN_MODULES = ["LexVerif.Props.C02", "LexVerif.Props.RoundNE", "LexVerif.Props.TablesWrite", "LexVerif.Props.Literals.WriteFloatAlgorithm", "LexVerif.Props.Literals.WriteFloatCompact", "LexVerif.Props.Literals.WriteFloatShared", "LexVerif.Props.Literals.WriteFloatWrite", "LexVerif.Props.Literals.WriteIntegerJeaiii", "LexVerif.Props.Literals.WriteIntegerDecimal", "LexVerif.Props.Literals.WriteFloatFloat", "LexVerif.Props.LiteralsModelWrite"]
 GEN = ["write_tables", "literals"]
 TRUSTED = TRUSTED_BASE + [
-    "Dragonbox / Grisu correctness for ALL inputs is NOT proved in Lean (research-level; `dragonbox_correct`, `grisu_roundtrip` are "
-    "visible Props). Proved: the oracle Spec.shortest (sanity theorems); the formatting model; the caches/log tables; on the Lean models "
-    "of algorithm.rs / compact.rs (tied by the `td` / `gr` component correspondence): every arithmetic kernel for all inputs "
-    "(umul128/192, divide_by_pow10, check_div_pow10, div_pow10, remove_trailing_zeros, floor_log* = true floor logs), the whole "
-    "compute_nearest_shorter branch (all 2300 zero-mantissa floats of both types, kernel-evaluated against the oracle), "
-    "cached_grisu_power = dump on its whole range; the general branch is compared with the oracle on G-bits",
+    "Both float->decimal algorithms are PROVED on their Lean models for ALL finite non-zero f32/f64: Dragonbox (default builds) "
+    "`dragonbox_correct_holds` (shorter-interval branch = 2300 kernel-evaluated inputs; normal branch = per-exponent Farey "
+    "certificates checked by the kernel for all 254 + 2046 binary exponents, then a proof for every mantissa) and Grisu (compact "
+    "builds) `grisu_roundtrip_holds` (per-(exponent, shift) certificates of the cached powers, mul = correctly rounded product, "
+    "error analysis of the three products, loop invariants of generate_digits / round_digit). What stays trusted is the tie "
+    "model <-> code: the `td` / `gr` component correspondence and the R dump of the caches / constants, S literals. Also proved: the "
+    "oracle Spec.shortest (sanity theorems); the formatting model; the caches/log tables; every arithmetic kernel for all inputs "
+    "(umul128/192, divide_by_pow10, check_div_pow10, div_pow10, remove_trailing_zeros, floor_log* = true floor logs); "
+    "cached_grisu_power = dump on its whole range",
 ]
 RULE = ("G-bits: every binade x {min, min+1, max-1, max, half, random}, all subnormal powers of two +-1, integers and halves < 130, "
         "d*10^k for 9 leading patterns and every k, floats having a <=4-digit decimal exactly on a rounding-interval endpoint "
@@ -23,8 +26,8 @@ RULE = ("G-bits: every binade x {min, min+1, max-1, max, half, random}, all subn
 
 
 TECHNIQUE = 'Lean 4 proof (Spec.shortest round-trips, is minimal and closest; formatting-layer model) + byte-exact correspondence and exact re-parse of every output'
-LEVEL_TEXT = 'Proved in Lean for all floats: the oracle Spec.shortest returns decimals that round-trip (via roundNE), have the fewest digits and are closest; the search always terminates within its fuel. Lean models of Dragonbox and Grisu mirror the Rust control flow (component correspondence td/gr); their arithmetic kernels are proved for all inputs and the shorter-interval branch of Dragonbox is proved for all 2300 inputs; the general case of the two algorithms is NOT proved; every implementation output on the G-bits stream is compared byte-for-byte with oracle+formatting model (non-compact) and re-parsed exactly (round trip and <=17/9 digits, all builds).'
-LEVEL_NOTE = 'Trusted: Lean kernel; rustc; differential harness and generators. Dragonbox (Model/Dragonbox.lean) and Grisu (Model/Grisu.lean) are modelled and compared with to_decimal / grisu on every op of the td / gr streams (>= 180k ops per run, 0 mismatches required); kernels and the shorter-interval branch are theorems, the normal branch (compute_nearest_normal) is NOT proved for all inputs; caches and log tables are tied by the R dump (Props/TablesWrite).'
+LEVEL_TEXT = 'Proved in Lean for all floats: the oracle Spec.shortest returns decimals that round-trip (via roundNE), have the fewest digits and are closest; the search always terminates within its fuel. The Lean model of Dragonbox (algorithm.rs, default builds; tied to the code by the td component correspondence) is PROVED to return a pair of Spec.shortest for EVERY finite non-zero f32 and f64 (dragonbox_correct_holds: shorter-interval branch by kernel evaluation of all 2300 inputs, normal branch from kernel-checked per-exponent certificates for all 254+2046 binary exponents and a proof over all mantissas; compute_mul / compute_delta / compute_mul_parity are exact for every input, the two binary32 inputs of the source comment with a wrong centre-integrality flag are proved harmless). The Lean model of Grisu (compact.rs, compact builds; gr correspondence) is PROVED to return 1..17 / 1..9 digit characters without leading zero that re-parse exactly to the same float, for EVERY finite non-zero f32 and f64 (grisu_roundtrip_holds). Every implementation output on the G-bits stream is compared byte-for-byte with oracle+formatting model (non-compact) and re-parsed exactly (round trip and <=17/9 digits, all builds).'
+LEVEL_NOTE = 'Trusted: Lean kernel; rustc; differential harness and generators. Dragonbox (Model/Dragonbox.lean) and Grisu (Model/Grisu.lean) are modelled and compared with to_decimal / grisu on every op of the td / gr streams (>= 180k ops per run, 0 mismatches required); both models are proved correct for all inputs (Props/C02.lean dragonbox_correct_holds, grisu_roundtrip_holds), so the remaining trust is the model<->code tie (td / gr correspondence, R dump of caches / constants, S literals); caches and log tables are tied by the R dump (Props/TablesWrite).'
 
 
 def feature_sets(tier):
